@@ -12,7 +12,7 @@ CONSTANTS FAMS,       \* writer families explored ("corpus" = the loaded charts)
           CATSEL,     \* category choices used (indices into CatChoiceSeq)
           XYSEL,      \* XY / bubble length sequences used (indices into LenSeqSeq)
           L,          \* max number of ReplaceData per history
-          FMT,        \* "none" | "ends" (no series or all series formatted) | "prefix" (any prefix 1..k)
+          FMT,        \* "none" | "all" (every series formatted) | "ends" (none or all) | "prefix" (any prefix 1..k)
           REOPEN,     \* "none" | "end" (SaveReopen only as the last action) | "any"
           RMOD,       \* SaveReopen only when the last shape index is divisible by RMOD
           CORPUSSEL   \* 0: all corpus charts, n: every n-th (multi-plot charts always)
@@ -74,7 +74,8 @@ DoFormat == /\ Live /\ FMT # "none" /\ NRep = 0 /\ hist[Len(hist)].op \in {"add"
                /\ chart' = ImplStep(chart, a) /\ hist' = Append(hist, a) /\ nfmt' = nfmt + 1 /\ UNCHANGED done
                /\ Judge(a, chart', hist')
 DoReplace == /\ Live /\ NRep < L
-             /\ FMT = "ends" /\ hist[1].op = "add" => nfmt \in {0, Len(AllSers(chart))}
+             /\ FMT = "ends" /\ hist[1].op = "add" /\ NRep = 0 => nfmt \in {0, Len(AllSers(chart))}
+             /\ FMT = "all" /\ hist[1].op = "add" /\ NRep = 0 => nfmt = Len(AllSers(chart))
              /\ \E d \in IdsFor(DataKind, IsPie) :
                   LET a == [op |-> "replace", data |-> ShapeTab[d]] IN
                   /\ chart' = ImplStep(chart, a) /\ hist' = Append(hist, [op |-> "replace", d |-> d]) /\ UNCHANGED <<nfmt, done>>
